@@ -103,6 +103,10 @@ func handleLRange(params internal.HandlerFuncParams) ([]byte, error) {
 	if start < 0 {
 		start = len(list) + start
 	}
+	// If start is still before the first element, start at the first element
+	if start < 0 {
+		start = 0
+	}
 
 	end, err := strconv.Atoi(params.Command[3])
 	if err != nil {
